@@ -36,6 +36,7 @@ const (
 	tSigTruncated      // signature segment with its last byte removed
 	tSigBitFlip        // one byte of the signature changed
 	tKeyReuse          // recover: the next recovery commitment commits to the very key that is being revealed
+	tSignedExtraHeader // protected header with a further member (unrelated, or a case variant of alg/kid), signed over by the key holder
 	tCount
 )
 
@@ -173,7 +174,7 @@ func buildCase(typ operation.Type, tamper int, code uint, suffix string) *stepCa
 		}
 		u := gen.NewUpdate(suffix, code, signer, gen.Key("next-upd"), c.from, c.until, c.patches...)
 		c.updCommit = u.Delta.UpdateCommitment
-		tamperSigned(tamper, &u.Request.SignedData, &u.Request.RevealValue, u.Signed, func() { u.Signed.DeltaHash = gen.ModelHash(gen.Delta("x", good), code) })
+		tamperSigned(tamper, signer, &u.Request.SignedData, &u.Request.RevealValue, u.Signed, func() { u.Signed.DeltaHash = gen.ModelHash(gen.Delta("x", good), code) })
 		if tamper == tDeltaSubstituted {
 			u.Request.Delta = substDelta(u.Delta, code)
 			c.updCommit = u.Request.Delta.UpdateCommitment
@@ -200,7 +201,7 @@ func buildCase(typ operation.Type, tamper int, code uint, suffix string) *stepCa
 		r.Request.SignedData = signer.Sign(r.Signed)
 		c.origin = r.Signed.AnchorOrigin
 		c.updCommit, c.recCommit = r.Delta.UpdateCommitment, r.Signed.RecoveryCommitment
-		tamperSigned(tamper, &r.Request.SignedData, &r.Request.RevealValue, r.Signed, func() {
+		tamperSigned(tamper, signer, &r.Request.SignedData, &r.Request.RevealValue, r.Signed, func() {
 			evil := gen.Commitment(gen.Key("evil-rec"), code)
 			verifrt.Assume(evil != r.Signed.RecoveryCommitment)
 			r.Signed.RecoveryCommitment = evil
@@ -228,7 +229,7 @@ func buildCase(typ operation.Type, tamper int, code uint, suffix string) *stepCa
 		}
 		d := gen.NewDeactivate(signedSuffix, code, signer, c.from, c.until)
 		d.Request.DidSuffix = suffix
-		tamperSigned(tamper, &d.Request.SignedData, &d.Request.RevealValue, d.Signed, func() { d.Signed.AnchorUntil = d.Signed.AnchorUntil + 1000 })
+		tamperSigned(tamper, signer, &d.Request.SignedData, &d.Request.RevealValue, d.Signed, func() { d.Signed.AnchorUntil = d.Signed.AnchorUntil + 1000 })
 		c.request = gen.JSON(d.Request)
 		if tamper == tUnparsable {
 			c.request = gen.JSON(map[string]interface{}{"type": "deactivate", "didSuffix": "", "revealValue": d.Request.RevealValue, "signedData": d.Request.SignedData})
@@ -238,8 +239,11 @@ func buildCase(typ operation.Type, tamper int, code uint, suffix string) *stepCa
 }
 
 // tamperSigned applies the JWS-level tamper classes to a signed request in place.
-func tamperSigned(tamper int, signedData, reveal *string, payload interface{}, changePayload func()) {
+func tamperSigned(tamper int, signer *gen.Signer, signedData, reveal *string, payload interface{}, changePayload func()) {
 	switch tamper {
+	case tSignedExtraHeader:
+		extra := []map[string]interface{}{{"crit": "x"}, {"Kid": "someone-else"}, {"ALG": "ES256"}}[verifrt.Choose("extra-header", 3)]
+		*signedData = signer.SignWithHeaders(payload, extra)
 	case tPayloadChanged:
 		changePayload()
 		*signedData = withPayload(*signedData, payload)
@@ -282,7 +286,7 @@ func expectRefusal(c *stepCase, hasDoc bool, p protocol.Protocol, t uint64) bool
 		return true // create only on an empty state, the others only on an existing one
 	}
 	switch c.tamper {
-	case tUnparsable, tWrongSigner, tPayloadChanged, tRevealMismatch, tExtraHeader, tAlgNotAllowed, tTruncated, tSuffixMismatch, tSigPadded, tSigTruncated, tSigBitFlip, tKeyReuse:
+	case tUnparsable, tWrongSigner, tPayloadChanged, tRevealMismatch, tExtraHeader, tAlgNotAllowed, tTruncated, tSuffixMismatch, tSigPadded, tSigTruncated, tSigBitFlip, tKeyReuse, tSignedExtraHeader:
 		return true
 	}
 	switch c.typ {
@@ -298,6 +302,7 @@ func applierStep(typeChoices []operation.Type, tampers []int) {
 	code := uint(gen.SHA256)
 	p := gen.Protocol("p", false)
 	p.MaxOperationTimeDelta = verifrt.AnyU64("MaxOperationTimeDelta")
+	p.GenesisTime = verifrt.AnyU64("genesis-time") // the applier's own protocol version: any value
 	verifrt.Assume(p.MaxOperationTimeDelta < 1<<62)
 	composer := doccomposer.New()
 	a := New(p, operationparser.New(p), composer)
@@ -315,7 +320,14 @@ func applierStep(typeChoices []operation.Type, tampers []int) {
 	op := &operation.AnchoredOperation{Type: typ, UniqueSuffix: suffix, OperationRequest: c.request,
 		TransactionTime: verifrt.AnyU64("tx-time"), TransactionNumber: verifrt.AnyU64("tx-num"), ProtocolVersion: verifrt.AnyU64("tx-ver"),
 		CanonicalReference: verifrt.AnyAtom("op-canon"), EquivalentReferences: []string{verifrt.AnyAtom("op-eq0"), verifrt.AnyAtom("op-eq1"), verifrt.AnyAtom("op-eq2")}}
-	opRefs := append([]string{}, op.EquivalentReferences...)
+	if verifrt.Choose("op-published", 2) == 0 {
+		// an operation that is not anchored yet (unpublished) has no references of its own
+		op.CanonicalReference, op.EquivalentReferences = "", nil
+	}
+	var opRefs []string
+	if op.EquivalentReferences != nil {
+		opRefs = append([]string{}, op.EquivalentReferences...)
+	}
 	verifrt.Assume(op.TransactionTime < 1<<62)
 	if typ == "other" {
 		op.Type = operation.Type(verifrt.AnyAtom("unknown-type"))
@@ -407,7 +419,7 @@ func HarnessT_C01_StepOtherKeys() {
 func HarnessT_C02_TamperOtherKeys() {
 	keyKind = 1 + verifrt.Choose("key-kind", 2)
 	applierStep([]operation.Type{operation.TypeUpdate, operation.TypeRecover, operation.TypeDeactivate},
-		[]int{tNone, tWrongSigner, tPayloadChanged, tRevealMismatch, tExtraHeader, tAlgNotAllowed, tTruncated, tSigPadded, tSigTruncated, tSigBitFlip})
+		[]int{tNone, tWrongSigner, tPayloadChanged, tRevealMismatch, tExtraHeader, tSignedExtraHeader, tAlgNotAllowed, tTruncated, tSigPadded, tSigTruncated, tSigBitFlip})
 }
 
 var allTypes = []operation.Type{operation.TypeCreate, operation.TypeUpdate, operation.TypeRecover, operation.TypeDeactivate, "other"}
@@ -422,7 +434,7 @@ func Harness_C01_Step() {
 func Harness_C02_Tamper() {
 	keyKind = 0
 	applierStep([]operation.Type{operation.TypeUpdate, operation.TypeRecover, operation.TypeDeactivate},
-		[]int{tNone, tWrongSigner, tPayloadChanged, tRevealMismatch, tDeltaSubstituted, tExtraHeader, tAlgNotAllowed, tTruncated, tSuffixMismatch, tSigPadded, tSigTruncated, tSigBitFlip})
+		[]int{tNone, tWrongSigner, tPayloadChanged, tRevealMismatch, tDeltaSubstituted, tExtraHeader, tSignedExtraHeader, tAlgNotAllowed, tTruncated, tSuffixMismatch, tSigPadded, tSigTruncated, tSigBitFlip})
 }
 
 // Harness_C09_ApplyWindow: out-of-window updates and recovers still advance their commitments but leave the
